@@ -124,3 +124,20 @@ Proof.
     split; [eapply KS_le_trans with (q := w_p (wstep_total w op)) | eapply KS_le_trans with (q := w_q (wstep_total w op))];
       eauto.
 Qed.
+
+(** ------------------------------------------------------------------ C01 over histories: the excess of real
+    balances over booked reserves (rounding dust, donations) never shrinks over ANY history. *)
+Lemma run_excess ops : forall p, PairInv p ->
+  p_bal1 p - p_r1 p <= p_bal1 (run p ops) - p_r1 (run p ops) /\
+  p_bal2 p - p_r2 p <= p_bal2 (run p ops) - p_r2 (run p ops).
+Proof.
+  induction ops as [|op t IH]; intros p Hinv.
+  - unfold run; simpl. lia.
+  - change (run p (op :: t)) with (run (step_total p op) t).
+    destruct (IH _ (step_total_inv p op Hinv)) as (A1 & A2).
+    assert (B : p_bal1 p - p_r1 p <= p_bal1 (step_total p op) - p_r1 (step_total p op) /\
+                p_bal2 p - p_r2 p <= p_bal2 (step_total p op) - p_r2 (step_total p op)).
+    { unfold step_total. destruct (step p op) as [[[p' o] e]|] eqn:E; [|lia].
+      pose proof (step_spec _ _ _ _ _ E Hinv) as (_ & _ & X). unfold ExMono, ex1, ex2 in X. lia. }
+    lia.
+Qed.
